@@ -448,9 +448,25 @@ def _desugar_try_fold(fns_by_path, f, raw):
 
 def desugar_combinators(fns_by_path, f):
     """-> new Fn with every closure-taking combinator call (closure written in this crate) replaced by its match; None if nothing changed"""
-    raw, used = _inline_direct_closure_calls(fns_by_path, f)
-    raw, used2 = _desugar_try_fold(fns_by_path, f, raw)
-    used |= used2
+    from .unroll import unroll_array_iterators
+    used0 = set()
+    pre = None
+    for _ in range(3):
+        # a closure called directly may *return* the pipeline (`let present = || fields.iter().copied().filter(p);`): splice, then unroll
+        r1, u1 = _inline_direct_closure_calls(fns_by_path, f)
+        if r1 is not None:
+            f, pre = Fn(r1), r1
+            used0 |= u1
+        r0, u0 = unroll_array_iterators(fns_by_path, f, None)
+        if r0 is not None:
+            f, pre = Fn(r0), r0
+            used0 |= u0
+        if r0 is None and r1 is None:
+            break
+    raw, used = _desugar_try_fold(fns_by_path, f, None)
+    used |= used0
+    if raw is None and pre is not None:
+        raw = pre
     changed = raw is not None
     for _ in range(4):
         cur = raw if raw is not None else f.raw
